@@ -223,6 +223,52 @@ def part_sweep(rep, cov, tier):
     cov["traces_validated_against_impl"] += len(jobs) * 2
 
 
+def part_size(rep, cov, tier):
+    """Encoding transparency must not depend on WHERE in the file a multi-byte sequence lies: the same program, padded
+    by an ASCII comment so that a run of 2-, 3- and 4-byte characters (a surrogate pair in UTF-16) crosses byte offset
+    B for the usual buffer sizes B, in every encoding; the verdict, the code and line:col of the planted fault must be
+    those computed from the decoded text."""
+    bounds = [512, 1024, 4096, 8192] if tier == "quick" else [256, 512, 1024, 2048, 4096, 8192, 16384, 32768, 65536]
+    run_u = "\u00e9\u20ac\U0001F600" * 12            # é € 😀
+    run_1252 = "\u00e9\u20ac\u00fc\u00df" * 12        # é € ü ß  (all Windows-1252)
+    wd = vlib.workdir("c14_size")
+    jobs = []
+    for enc in ("utf8", "utf8bom", "utf16le", "utf16be", "cp1252"):
+        run = run_1252 if enc == "cp1252" else run_u
+        for B in bounds:
+            for k in range(8 if tier == "quick" else 16):
+                # prefix bytes before the run = B - 20 + k  in this encoding
+                head = "(*"
+                tail = "*)\n(* " + run + " *) FUNCTION_BLOCK FB_SZ VAR a : INT; b : INT; END_VAR a := " + "c_undeclared" + " + 1; END_FUNCTION_BLOCK\n"
+                unit = 2 if enc.startswith("utf16") else 1
+                bom = {"utf8bom": 3, "utf16le": 2, "utf16be": 2}.get(enc, 0)
+                fixed = bom + unit * (len(head) + len("*)\n(* "))
+                npad = max(0, (B - 20 + k - fixed) // unit)
+                text = head + "x" * npad + tail
+                jobs.append((enc, B, k, text))
+
+    def one(j):
+        enc, B, k, text = j
+        p = os.path.join(wd, "%s_%d_%d.st" % (enc, B, k))
+        with open(p, "wb") as f:
+            f.write(clidrv.encode(text, enc))
+        r = vlib.run_cli(["check", p])
+        return r["rc"], sorted((c, ln, col) for c, f_, ln, col in vlib.parse_cli_diags(r["stderr"]) if f_ is not None), r["stderr"][-600:]
+
+    with ThreadPoolExecutor(max_workers=vlib.NCPU) as ex:
+        outs = list(ex.map(one, jobs))
+    for (enc, B, k, text), (rc, located, err) in zip(jobs, outs):
+        line2 = text.split("\n")[1]
+        want = [("P0015", 2, line2.index("c_undeclared") + 1)]
+        if rc != 1 or located != want:
+            rep.add("size:result-depends-on-position-of-multibyte-sequence:%s" % ("verdict-or-code" if rc != 1 or [x[0] for x in located] != ["P0015"] else "position"),
+                    labels={"enc:" + enc, "size"}, detail={"encoding": enc, "boundary": B, "k": k, "expected": want, "rc": rc, "observed": located, "stderr": err},
+                    replay={"file_hex": clidrv.encode(text, enc).hex()[:8000], "cmd": "ironplcc check <file>"})
+    cov["size_runs"] = len(jobs)
+    cov["size_boundaries"] = bounds
+    cov["traces_validated_against_impl"] += len(jobs)
+
+
 def main():
     tier = sys.argv[1] if len(sys.argv) > 1 else vlib.TIER
     vlib.TIER = tier
@@ -231,6 +277,7 @@ def main():
     cov = {"states": 0, "transitions": 0, "traces_validated_against_impl": 0, "samples": [], "tlc_runs": []}
     part_enc(rep, cov, tier)
     part_sweep(rep, cov, tier)
+    part_size(rep, cov, tier)
     cov["exhaustive"] = True
     cov["rule"] = ("all 125 assignments of 5 encodings to 3 files x invocations; every byte value in 4 contexts; random binary files")
     return rep.finish("model_checking", cov, assumptions=[
